@@ -56,6 +56,12 @@ def run(ctx: Ctx) -> None:
             o_.rule = "C16.R13/" + o_.rule
         for k_ in [k_ for k_ in rep.floors if k_.startswith("C12.")]:
             rep.floors["C16.R13/" + k_] = rep.floors.pop(k_)
+    rep.rule("C16.R14", "sharing computed blobs between two data views never changes a value: has_blob answers True only when every name that fetch_blob reads (blob and metadata) exists")
+    n14 = S.presence_requires_all(ctx, v, "C16.R14")
+    rep.floor("C16.R14", n14, 2)
+    rep.rule("C16.R15", "a data view is read whole: fetch_paths of every store answers every requested path (one mapping across the loop, returned after it) - as C08.R15 / C19.R14")
+    n15 = S.every_path_answered(ctx, "C16.R15")
+    rep.floor("C16.R15", n15, 2)
     rep.rule("C16.R12", "the implicit default store and set_store('local') without directories use the same default directories")
     n12 = default_dirs_agree(ctx, v, "C16.R12")
     rep.floor("C16.R12", n12, 2)
